@@ -317,6 +317,11 @@ fn replacements(s: &str) -> Vec<String> {
         if matches!(t.kind, 'S' | 'Q' | 'X' | 'Y') {
             if let Ok(Some(Value::Text(txt))) = parse(old) {
                 let c = crate::gen::text_lit(txt.as_str(), 0);
+                if t.start > 0 && s.as_bytes()[t.start - 1] == b'@' {
+                    for r in ["a", "b"] {
+                        out.push(edit(s, &[(t.start, t.end)], r));
+                    }
+                }
                 if smaller(&c, old) {
                     let at_name = t.start > 0 && s.as_bytes()[t.start - 1] == b'@';
                     let follows_bare_attr = i > 0 && ts[i - 1].kind == '@' && !s[ts[i - 1].start..ts[i - 1].end].ends_with('(');
